@@ -598,7 +598,7 @@ def run_C18(R):
 
 # =============================== C19 =========================================
 
-C19_SYMS = ['a', 'b1', 'x-y', '"q r"', '"a, (b) ^c"', '12', '-', '"\\"q\\""', '1.5',
+C19_SYMS = ['a', 'b1', 'x-y', '"q r"', '"a, (b) ^c"', '12', '-', '"\\"q\\""', '1.5', '1,000', 'a,b',
             '"^"', '""', '"a,b"', 'x.y', 'é']
 C19_ROLES = [':instance', ':ARG0', ':op1', ':mod-of', ':x.y', ':A']
 
@@ -639,7 +639,7 @@ def run_C19(R):
         g = penman.decode(src)
         ts = [(s, r, t) for s, r, t in g.triples if t is not None]
         R.check('C19.roundtrip', {'triples': ts})
-    for tgt, txt in (('b', 'b'), ('"q, r"', '"q, r"'), ('"(^)"', '"(^)"')):
+    for tgt, txt in (('b', 'b'), ('"q, r"', '"q, r"'), ('"(^)"', '"(^)"'), ('1,000', '1,000'), ('x,y,z', 'x,y,z')):
         for variant in ['instance(a,%s)', 'instance(a, %s)', 'instance(a ,%s)', 'instance(a , %s)']:
             if txt.startswith('"') and variant in ('instance(a,%s)', 'instance(a ,%s)'):
                 pass  # still documented variants: the string follows the comma directly
